@@ -8,6 +8,9 @@ MODULES = {
     'C01': 'p_art', 'C02': 'p_art', 'C10': 'p_art',
     'C07': 'p_lock',
     'C05': 'p_qsbr', 'C06': 'p_qsbr',
+    'C13': 'p_mutex', 'C17': 'p_ptr',
+    'C08': 'p_fault',
+    'C16': 'p_cfg',
 }
 
 
